@@ -20,6 +20,9 @@ import (
 	"github.com/miekg/dns"
 )
 
+// rwOnlyHost gets nothing but $dnsrewrite rules and exceptions in every list
+const rwOnlyHost = "rw.only.test"
+
 var histHosts = []string{"example.org", "sub.example.org", "ads.example.net", "tracker.test", "cdn.tracker.test", "static.site.com", "site.com", "other.io"}
 
 func rndListLine(rnd *rand.Rand) string {
@@ -92,9 +95,18 @@ func (q *histQuery) key() string {
 func rndHistQuery(rnd *rand.Rand) *histQuery {
 	h := histHosts[rnd.Intn(len(histHosts))]
 	q := &histQuery{host: h}
-	switch rnd.Intn(4) {
+	switch rnd.Intn(5) {
+	case 4:
+		// the convenience entry point: hostname only
+		q.kind = "dnsmatch"
+		if rnd.Intn(3) == 0 {
+			q.host = rwOnlyHost
+		}
 	case 0, 1:
 		q.kind = "dns"
+		if rnd.Intn(6) == 0 {
+			q.host = rwOnlyHost
+		}
 		q.dt = []uint16{dns.TypeA, dns.TypeAAAA, 0}[rnd.Intn(3)]
 		q.cn = []string{"", "phone", "tv"}[rnd.Intn(3)]
 		q.cip = []string{"", "10.0.0.5", "192.168.1.2"}[rnd.Intn(3)]
@@ -172,6 +184,15 @@ func (e *histEngines) run(q *histQuery) (digest string, res *histResult, texts [
 func (e *histEngines) run2(q *histQuery) (digest string, res *histResult, texts, netTexts []string, pv string) {
 	pv = safeCall(func() {
 		switch q.kind {
+		case "dnsmatch":
+			r, ok := e.dns.Match(q.host)
+			res = &histResult{dns: r, ok: ok}
+			digest = digestResult(q, res)
+			texts = textsOf(r.NetworkRules)
+			netTexts = textsOf(r.NetworkRules)
+			for _, h := range append(append([]*rules.HostRule{}, r.HostRulesV4...), r.HostRulesV6...) {
+				texts = append(texts, h.RuleText)
+			}
 		case "dns":
 			dq := &urlfilter.DNSRequest{Hostname: q.host, DNSType: q.dt, ClientName: q.cn, SortedClientTags: q.tags}
 			if q.cip != "" {
@@ -307,6 +328,13 @@ func cmdDriveHistory(args []string) error {
 		for i := 0; i < 15+hr.Intn(40); i++ {
 			lines = append(lines, rndListLine(hr))
 		}
+		for _, v := range []string{"=1.2.3.4", "=2.3.4.5", "=c.test"} {
+			lines = append(lines, "||"+rwOnlyHost+"^$dnsrewrite"+v)
+			if hr.Intn(2) == 0 {
+				lines = append(lines, "@@||"+rwOnlyHost+"^$dnsrewrite"+v)
+			}
+		}
+		hr.Shuffle(len(lines), func(i, j int) { lines[i], lines[j] = lines[j], lines[i] })
 		st, cleanup, err := makeHistStorage(hr, lines, m["dir"], false)
 		if err != nil {
 			return err
@@ -362,6 +390,9 @@ func cmdDriveHistory(args []string) error {
 				k := results[hr.Intn(len(results))]
 				kind := []string{"rewrites", "other"}[hr.Intn(2)]
 				out.write(map[string]any{"ev": "derive", "q": "", "a": shortDigest(derive(k.r, kind)), "rid": k.rid, "k": kind, "h": hnum})
+				// evaluating a derived result must not have changed the result it was derived from ...
+				out.write(map[string]any{"ev": "recheck", "q": "", "a": shortDigest(digestResult(nil, k.r)), "rid": k.rid, "k": "", "h": hnum})
+				// ... nor any other earlier result
 				k2 := results[hr.Intn(len(results))]
 				out.write(map[string]any{"ev": "recheck", "q": "", "a": shortDigest(digestResult(nil, k2.r)), "rid": k2.rid, "k": "", "h": hnum})
 			}
@@ -378,7 +409,7 @@ func cmdDriveHistory(args []string) error {
 // trulyMatching is the oracle the property names: the rules of the lists that individually match the request.
 func trulyMatching(parsed []rules.Rule, q *histQuery) (out []string) {
 	var req *rules.Request
-	if q.kind == "dns" {
+	if q.kind == "dns" || q.kind == "dnsmatch" {
 		req = rules.NewRequestForHostname(q.host)
 		req.DNSType, req.ClientName, req.SortedClientTags = q.dt, q.cn, q.tags
 		if q.cip != "" {
@@ -394,7 +425,7 @@ func trulyMatching(parsed []rules.Rule, q *histQuery) (out []string) {
 				out = append(out, x.RuleText)
 			}
 		case *rules.HostRule:
-			if q.kind == "dns" && x.Match(q.host) {
+			if (q.kind == "dns" || q.kind == "dnsmatch") && x.Match(q.host) {
 				out = append(out, x.RuleText)
 			}
 		}
